@@ -1,0 +1,26 @@
+//go:build verif
+
+package conditions
+
+// Contracts read by the verification engine in /verif (govc). Comment-only file.
+//
+//@ func GetIndexForConditionType
+//@   pure
+//@   ensures nil-status: status == nil ==> result == 0 - 1
+//@   ensures range: result == 0 - 1 || (0 <= result && result < len(status.Conditions) && status.Conditions[result].Type == t)
+//@   ensures absent: result == 0 - 1 && status != nil ==> forall i int :: 0 <= i && i < len(status.Conditions) ==> status.Conditions[i].Type != t
+//@   ensures first: result >= 0 ==> forall i int :: 0 <= i && i < result ==> status.Conditions[i].Type != t
+//@   loop 1 invariant 0 <= iter() && iter() <= len(status.Conditions)
+//@   loop 1 invariant forall j int :: 0 <= j && j < iter() ==> status.Conditions[j].Type != t
+//@
+//@ func GetExtendedDaemonSetReplicaSetStatusCondition
+//@   transparent
+//@   ensures result == nil <==> GetIndexForConditionType(status, t) == 0 - 1
+//@   ensures result != nil ==> result == &status.Conditions[GetIndexForConditionType(status, t)]
+//@
+//@ func IsConditionTrue
+//@   transparent
+//@
+//@ func BoolToCondition
+//@   transparent
+//@   ensures result == "True" <==> value
